@@ -21,6 +21,8 @@ func runC07(p *Prog, r *Report) {
 	c07R3(p, r)
 	c07R4(p, r)
 	c07R5(p, r)
+	c07R6(p, r)
+	c07R7(p, r)
 }
 
 func c07R1(p *Prog, r *Report) {
@@ -820,4 +822,227 @@ func nonNilMapAt(fc *FuncCtx, e ast.Expr, at int, depth int) bool {
 		}
 	}
 	return true
+}
+
+// c07R6: SOCKS5 method negotiation looks at every offered method and at nothing else. The
+// methods field starts at offset 2 and is NMETHODS = b[1] bytes long: the bytes read are
+// b[:3] and then b[3 : 3+n-1], and the search for the server's method runs over b[2 : 2+n].
+func c07R6(p *Prog, r *Report) {
+	const rule = "C07-R6"
+	r.Rule(rule, "method negotiation covers exactly the offered methods: in serverHandleMethodSelection the search for the configured method runs over b[2 : 2+NMETHODS] of the handshake buffer (NMETHODS being b[1] widened), the single-method case compares b[2], and the bytes read are b[:3] followed by b[3 : 2+NMETHODS]")
+	fc := p.Func("socks5", "", "serverHandleMethodSelection")
+	info := fc.Info()
+	buf := fc.ParamObj(1)
+	var n types.Object // NMETHODS: the local defined as int(b[1])
+	for _, v := range fc.G.V {
+		var lhs, rhs ast.Expr
+		switch x := v.Node.(type) {
+		case *ast.AssignStmt:
+			if len(x.Lhs) == 1 && len(x.Rhs) == 1 {
+				lhs, rhs = x.Lhs[0], x.Rhs[0]
+			}
+		}
+		if lhs == nil {
+			continue
+		}
+		call, isCall := ast.Unparen(rhs).(*ast.CallExpr)
+		if !isCall {
+			continue
+		}
+		if inner, ok := isConversion(info, call); ok {
+			if ix, ok := ast.Unparen(inner).(*ast.IndexExpr); ok && objOf(info, ix.X) == buf {
+				if k, isC := constInt(info, ix.Index); isC && k == 1 {
+					n = objOf(info, lhs)
+				}
+			}
+		}
+	}
+	if n == nil || buf == nil {
+		r.Fail(rule, "socks5.serverHandleMethodSelection:nmethods", p.posStr(fc.Body.Pos()), "undecided: the NMETHODS variable (int(b[1])) was not found")
+		return
+	}
+	// a slice of the buffer as (low, high) linear forms over NMETHODS
+	bounds := func(e ast.Expr) (lo, hi linForm, ok bool) {
+		sl, isSl := ast.Unparen(fc.Resolve(e)).(*ast.SliceExpr)
+		if !isSl || objOf(info, sl.X) != buf {
+			return nil, nil, false
+		}
+		lo = linForm{}
+		if sl.Low != nil {
+			lo = linOf(p, fc, sl.Low, n)
+		}
+		if sl.High == nil {
+			return nil, nil, false
+		}
+		hi = linOf(p, fc, sl.High, n)
+		return lo, hi, true
+	}
+	isLin := func(f linForm, c, k int64) bool {
+		g := linForm{}
+		if c != 0 {
+			g[""] = c
+		}
+		if k != 0 {
+			g[n.Name()] = k
+		}
+		if len(f) != len(g) {
+			return false
+		}
+		for a, v := range g {
+			if f[a] != v {
+				return false
+			}
+		}
+		return true
+	}
+	nSearch := 0
+	for _, cs := range fc.AllCalls() {
+		if cs.Fn == nil || cs.Fn.Pkg() == nil {
+			continue
+		}
+		if cs.Fn.Pkg().Path() == "bytes" && (cs.Fn.Name() == "IndexByte" || cs.Fn.Name() == "Contains" || cs.Fn.Name() == "ContainsRune") || cs.Fn.Pkg().Path() == "slices" && (cs.Fn.Name() == "Contains" || cs.Fn.Name() == "Index") {
+			nSearch++
+			lo, hi, ok := bounds(cs.Call.Args[0])
+			r.Check(ok && isLin(lo, 2, 0) && isLin(hi, 2, 1), rule, "socks5.serverHandleMethodSelection:search-range", cs.Pos(), "searches b[2 : 2+NMETHODS]", "the search for the configured method does not cover exactly the offered methods b[2 : 2+NMETHODS] ("+exprStr(cs.Call.Args[0])+"): an offered method is overlooked (the client is refused) or bytes that were not offered are honoured")
+		}
+	}
+	r.Check(nSearch == 1, rule, "socks5.serverHandleMethodSelection:one-search", p.posStr(fc.Body.Pos()), "one search over the methods", fmt.Sprintf("%d searches over the methods field", nSearch))
+	// reads: b[:3] then b[3 : 2+n]
+	var reads [][2]linForm
+	for _, cs := range fc.CallsTo(isFn("io", "", "ReadFull")) {
+		lo, hi, ok := bounds(cs.Call.Args[1])
+		if !ok {
+			r.Fail(rule, "socks5.serverHandleMethodSelection:read-range@"+exprStr(cs.Call.Args[1]), cs.Pos(), "undecided: the read does not fill a slice of the handshake buffer")
+			continue
+		}
+		reads = append(reads, [2]linForm{lo, hi})
+	}
+	okReads := len(reads) == 2 && isLin(reads[0][0], 0, 0) && isLin(reads[0][1], 3, 0) && isLin(reads[1][0], 3, 0) && isLin(reads[1][1], 2, 1)
+	r.Check(okReads, rule, "socks5.serverHandleMethodSelection:read-ranges", p.posStr(fc.Body.Pos()), "reads b[:3] and b[3 : 2+NMETHODS]", "the bytes read are not b[:3] followed by b[3 : 2+NMETHODS]: methods are compared that were never received, or received ones skipped")
+	// single-method case compares b[2]
+	okOne := false
+	for _, v := range fc.G.V {
+		x, y, op, ok := condParts(v)
+		if !ok || y == nil || (op != token.NEQ && op != token.EQL) {
+			continue
+		}
+		for _, pair := range [][2]ast.Expr{{x, y}, {y, x}} {
+			if ix, isIx := ast.Unparen(pair[0]).(*ast.IndexExpr); isIx && objOf(info, ix.X) == buf && objOf(info, pair[1]) == fc.ParamObj(2) {
+				if k, isC := constInt(info, ix.Index); isC && k == 2 {
+					okOne = true
+				}
+			}
+		}
+	}
+	r.Check(okOne, rule, "socks5.serverHandleMethodSelection:single-method", p.posStr(fc.Body.Pos()), "the single offered method is b[2]", "the single-method case does not compare b[2] with the configured method")
+}
+
+// c07R7: a buffer that accumulates one user's credential bytes inside a loop over the users is
+// emptied (or fresh) in every iteration before it is consumed: otherwise the token of the i-th
+// user is built from the concatenation of users 1..i, which locks the later users out and
+// honours another string as theirs.
+func c07R7(p *Prog, r *Report) {
+	const rule = "C07-R7"
+	r.Rule(rule, "per-user credential buffers do not leak across users: in packages httpproxy and socks5, when a byte slice built with append inside a loop is handed to a consumer (encoder, map key, comparison, write) in that loop, following its definitions backwards from the consumer reaches a reset (x = x[:0], a fresh slice) or the empty declaration before it reaches an append of an earlier iteration")
+	n := 0
+	for _, rel := range []string{"httpproxy", "socks5"} {
+		pkg := p.Pkg(rel)
+		p.AllFuncs(pkg, func(top *FuncCtx) {
+			for _, fc := range allCtxs(p, top) {
+				info := fc.Info()
+				for _, cs := range fc.AllCalls() {
+					// consumers: calls (other than the builders themselves) taking the slice variable
+					name := ""
+					if id, ok := ast.Unparen(cs.Call.Fun).(*ast.Ident); ok {
+						name = id.Name
+					} else if cs.Fn != nil {
+						name = cs.Fn.Name()
+					}
+					if name == "append" || name == "len" || name == "cap" || name == "Grow" || name == "copy" {
+						continue
+					}
+					for _, a := range cs.Call.Args {
+						o, _ := objOf(info, a).(*types.Var)
+						if o == nil || o.IsField() || !isByteSlice(o.Type()) {
+							continue
+						}
+						// only accumulators: some definition is x = append(x, …)
+						acc := false
+						for _, d := range fc.Defs(o) {
+							if isSelfAppend(info, fc.G.V[d].Node, o) {
+								acc = true
+							}
+						}
+						if !acc || !inLoop(fc, cs.V) {
+							continue
+						}
+						n++
+						carried := accumulatorCarried(fc, o, cs.V)
+						r.Check(!carried, rule, fmt.Sprintf("%s:%s-consumed-by-%s", fc.Name, o.Name(), name), cs.Pos(), "the buffer is reset in every iteration before it is filled", "the buffer "+o.Name()+" handed to "+name+" still holds what earlier iterations appended (no reset such as "+o.Name()+" = "+o.Name()+"[:0] on the way): the value built for one user contains the previous users' bytes")
+					}
+				}
+			}
+		})
+	}
+	r.Count("accumulators_consumed_in_loops", n)
+	r.Floor(rule, 1)
+}
+
+func isByteSlice(t types.Type) bool {
+	s, ok := t.Underlying().(*types.Slice)
+	if !ok {
+		return false
+	}
+	b, ok := s.Elem().Underlying().(*types.Basic)
+	return ok && b.Kind() == types.Byte
+}
+
+// isSelfAppend: node is `o = append(o, …)` or `o = slices.Grow(o, …)`.
+func isSelfAppend(info *types.Info, n ast.Node, o types.Object) bool {
+	as, ok := n.(*ast.AssignStmt)
+	if !ok || len(as.Lhs) != 1 || len(as.Rhs) != 1 || objOf(info, as.Lhs[0]) != o {
+		return false
+	}
+	c, ok := ast.Unparen(as.Rhs[0]).(*ast.CallExpr)
+	if !ok || len(c.Args) == 0 || objOf(info, c.Args[0]) != o {
+		return false
+	}
+	if id, ok := ast.Unparen(c.Fun).(*ast.Ident); ok && id.Name == "append" {
+		return true
+	}
+	if fn := Callee(info, c); fn != nil && fn.Name() == "Grow" {
+		return true
+	}
+	return false
+}
+
+func inLoop(fc *FuncCtx, v int) bool {
+	return fc.G.ReachAfter(v, nil, nil)[v]
+}
+
+// accumulatorCarried: walking the definitions of o backwards from the use at `at` through
+// self-appends meets the same definition twice (the content survives a whole iteration).
+func accumulatorCarried(fc *FuncCtx, o types.Object, at int) bool {
+	info := fc.Info()
+	seen := map[int]bool{}
+	var walk func(v int) bool
+	walk = func(v int) bool {
+		for _, d := range fc.ReachingDefs(v, o) {
+			if d == fc.G.Entry {
+				continue
+			}
+			if !isSelfAppend(info, fc.G.V[d].Node, o) {
+				continue // a reset or a fresh value: the chain ends here
+			}
+			if seen[d] {
+				return true
+			}
+			seen[d] = true
+			if walk(d) {
+				return true
+			}
+		}
+		return false
+	}
+	return walk(at)
 }
